@@ -486,7 +486,13 @@ def _run(chk, ctx, a):
     except BrokenTie as e:
         broken.append(Broken("correspondence", type(chk).__name__ + ".correspondence", str(e)))
     # 7 search when something broke and no concrete failure yet
-    if broken and not failures:
+    known0 = load_known_findings()
+    unknown = []
+    for f in failures:
+        f.pid_ = pid
+        if _match_known(f, known0) is None:
+            unknown.append(f)
+    if broken and not unknown:
         try:
             failures += chk.search(ctx, broken)
         except BrokenTie as e:
